@@ -310,7 +310,9 @@ void gen_foreign1(Plan& p, Rng& r)
     // C02 converse on schema 1.x: the independent encoder writes, the public track API reads
     p.cfg.schema = (int)r.below(11);
     p.cfg.on_disk = true;
-    p.cfg.checks = CK_FOREIGN;
+    // ... and the single-field setters act on tracks whose performance data another program wrote (default != adjusted
+    // grid and main cue, more or fewer than 8 slots, is-set flags of their own): C06's differential checks apply as ever
+    p.cfg.checks = CK_FOREIGN | CK_DIFF;
     p.cfg.gf.rich = r.chance(1, 2);
     p.steps.push_back(mk("create_track", r, 0, 1));
     if (r.chance(1, 2))
@@ -321,7 +323,7 @@ void gen_foreign1(Plan& p, Rng& r)
         unsigned k = r.below(12);
         if (k == 0)
             p.steps.push_back(mk("reload", r, 1, 1));
-        else if (k == 1)
+        else if (k <= 4)
             p.steps.push_back(track_step(r, 1));
         else
             p.steps.push_back(mk("f_write1", r, 1, draw_size(r)));
@@ -458,6 +460,23 @@ void gen_atomic(Plan& p, Rng& r, uint64_t index)
     static const char* pre[] = {"create_track", "create_root", "create_sub", "add_track",
                                 "set", "set_parent", "create_sub_after", "update", "remove_from"};
     std::vector<unsigned> wp = {10, 8, 12, 14, 10, 5, 5, 3, 2};
+    {
+        // the probe kind is known in advance (stratified by the run index, see below): crate and membership probes get
+        // a pre-state with a real forest - several siblings under one parent, sub-crates, members - the way setter
+        // probes get fully analysed tracks; moving, renaming or removing the only crate of a library runs few statements
+        const uint64_t kind = index % 51;
+        const bool rich_forest = !r.chance(1, 4);
+        if (rich_forest && kind >= 3 && kind <= 9)
+        {
+            wp = {3, 14, 22, 8, 0, 4, 10, 0, 1};
+            n = 5 + (int)r.below(6);
+        }
+        else if (rich_forest && ((kind >= 10 && kind <= 12) || kind >= 45))
+        {
+            wp = {10, 8, 10, 30, 0, 2, 4, 0, 3};
+            n = 6 + (int)r.below(6);
+        }
+    }
     for (int i = 0; i < n; ++i)
     {
         size_t k = r.weighted(wp);
@@ -545,8 +564,8 @@ Plan generate_plan(const std::string& profile_in, uint64_t seed, uint64_t index)
         gen_members(p, r);
     else if (profile == "mixed")
         gen_mixed(p, r);
-    else if (profile == "atomic")
-        gen_atomic(p, r, index);
+    else if (profile == "atomic" || profile == "atomic_chain")
+        gen_atomic(p, r, index);  // atomic_chain: same (state, call) pairs, four times as many fault sequences per pair
     else if (profile == "table")
         gen_table(p, r, false);
     else if (profile == "tableh")
